@@ -568,6 +568,75 @@ fn main() {
             }
             extra = json!({"rounds": 150, "copies_checked": checked});
         }
+        "lone-late-send" => {
+            // the background collector alone (no flush, no cycle driven by the harness): a thread's
+            // last command is held up for a few report intervals right before it enters the queue
+            // (after everything the sender does before the push), then nothing at all calls into
+            // the library. The span must still be reported within a bounded number of intervals.
+            use std::sync::atomic::AtomicU64;
+            static DELAY_US: AtomicU64 = AtomicU64::new(0);
+            static AT_PUSH: std::sync::atomic::AtomicBool = std::sync::atomic::AtomicBool::new(true);
+            thread_local! { static MARKED: std::cell::Cell<bool> = const { std::cell::Cell::new(false) }; }
+            let interval = Duration::from_millis(2);
+            let rep = Rep::default();
+            fastrace::set_reporter(rep.clone(), Config::default().report_interval(interval));
+            fastrace::verif::set_hook(Some(Arc::new(|p: &fastrace::verif::Point| {
+                let hit = match p {
+                    fastrace::verif::Point::Push { .. } => AT_PUSH.load(Ordering::SeqCst),
+                    fastrace::verif::Point::Send { .. } => !AT_PUSH.load(Ordering::SeqCst),
+                    _ => false,
+                };
+                if hit && MARKED.with(|m| m.replace(false)) {
+                    std::thread::sleep(Duration::from_micros(DELAY_US.load(Ordering::SeqCst)));
+                }
+            })));
+            std::thread::sleep(Duration::from_millis(20));
+            let mut rng = hx::rng::Rng::new(0x10e5_e4d);
+            let mut worst_intervals = 0u64;
+            for round in 0..36u64 {
+                let name = format!("late-{}", round);
+                DELAY_US.store(500 + rng.below(9000) as u64, Ordering::SeqCst);
+                AT_PUSH.store(rng.chance(2, 3), Ordering::SeqCst);
+                let n2 = name.clone();
+                let which = rng.below(3);
+                std::thread::spawn(move || {
+                    let root = Span::root(n2, SpanContext::new(TraceId(0x9000 + round as u128), SpanId(1)));
+                    let child = Span::enter_with_parent("late-child", &root);
+                    match which {
+                        // the delayed command is the child's span set, the root's span set, or (with
+                        // both already in) whatever the root's finish sends first
+                        0 => {
+                            MARKED.with(|m| m.set(true));
+                            drop(child);
+                            drop(root);
+                        }
+                        _ => {
+                            drop(child);
+                            MARKED.with(|m| m.set(true));
+                            drop(root);
+                        }
+                    }
+                })
+                .join()
+                .unwrap();
+                // silence: nothing calls into the library; only the background collector runs
+                let t = Instant::now();
+                // generous: a lost wake-up never recovers, a loaded machine does
+                let limit = Duration::from_secs(4);
+                loop {
+                    if rep.0.lock().unwrap().iter().any(|r| r.name == name) {
+                        break;
+                    }
+                    if t.elapsed() > limit {
+                        panic!("round {}: {:?} was not reported within {:?} (report interval 2 ms) after its thread finished it and exited, with no further call into the library", round, name, limit);
+                    }
+                    std::thread::sleep(Duration::from_micros(300));
+                }
+                worst_intervals = worst_intervals.max((t.elapsed().as_micros() / interval.as_micros()) as u64);
+            }
+            fastrace::verif::set_hook(None);
+            extra = json!({"rounds": 36, "worst_wait_in_report_intervals": worst_intervals});
+        }
         "deep-backlog" => {
             // more finish signals parked in one episode than the ring has slots (10240): they must
             // all get through once the collector runs again, and later traces must be complete
